@@ -866,18 +866,20 @@ func (m *Memberlist) setProbeChannels(seqNo uint32, ackCh chan ackMessage, nackC
 // deleted. This is used for indirect pings so does not configure a function
 // for nacks.
 func (m *Memberlist) setAckHandler(seqNo uint32, ackFn func([]byte, time.Time), timeout time.Duration) {
-	// Add the handler
-	ah := &ackHandler{ackFn, nil, nil}
-	m.ackLock.Lock()
-	m.ackHandlers[seqNo] = ah
-	m.ackLock.Unlock()
-
-	// Setup a reaping routing
-	ah.timer = time.AfterFunc(timeout, func() {
+	// Create the handler together with its reaping routine. The timer must
+	// be in place before the handler is published: invokeAckHandler stops
+	// the timer of whatever handler it finds, and an ack for this sequence
+	// number can arrive as soon as the handler is in the map.
+	ah := &ackHandler{ackFn, nil, time.AfterFunc(timeout, func() {
 		m.ackLock.Lock()
 		delete(m.ackHandlers, seqNo)
 		m.ackLock.Unlock()
-	})
+	})}
+
+	// Add the handler
+	m.ackLock.Lock()
+	m.ackHandlers[seqNo] = ah
+	m.ackLock.Unlock()
 }
 
 // Invokes an ack handler if any is associated, and reaps the handler immediately
